@@ -70,6 +70,8 @@ const (
 	fkStats
 	fkRegister
 	fkNoObject // a call to an object that does not exist: refused by the connection goroutine itself
+	fkRefused  // part (xi): a registerEvent / unregisterEvent the object refuses (user id in use / unknown)
+	fkObjectID // part (xii): the registrar of service 5 returns the id of the published object (4 bytes)
 )
 
 type c04FeatCall struct {
@@ -159,6 +161,15 @@ func (r *c04FeatRun) judge(c *c04FeatCall, phase string) {
 	case c.kind == fkNoObject:
 		if err == nil {
 			r.res.Fail("wrong-or-foreign-result", fmt.Sprintf("%s returned %x without error: there is no such object, the result is another call's", desc, out))
+		}
+	case c.kind == fkRefused:
+		// the refusal (an Error frame) is its outcome; whether the object refuses is not C04's business
+		if err == nil {
+			r.res.Dist("outcome:refusal-expected-but-served")
+		}
+	case err == nil && c.kind == fkObjectID:
+		if len(out) != 4 {
+			r.res.Fail("wrong-or-foreign-result", fmt.Sprintf("%s returned %x without error, which is not an object id", desc, out))
 		}
 	case err == nil:
 		var want []byte
